@@ -55,10 +55,11 @@ Print Assumptions C01_full_where_builder_agrees.
    [frag_e2e] (Spec/Fragment.v): literals, `$`, identifiers, round groups, every prefix and
    suffix operator, every binary operator (arithmetic, bitwise, comparison, equality, `^^`,
    pair, access, `<~`, `~>`), `~~`, space lists and comma lists, `&&` `||`, conditionals
-   `?>` `!>` and `|>` else-chains, nested expressions `{ body }` whose body is one
-   expression of the fragment (as values and as the functions of the apply forms), and
-   re-apply `^~ e`.  (Side-effect blocks [ ] and separators -- also inside { } -- are
-   outside: the reference parser of C02 is undefined on them.)
+   `?>` `!>` and `|>` else-chains, nested expressions `{ body }` (as values and as the
+   functions of the apply forms), re-apply `^~ e`, and sequences `l ; r` at the top of a
+   program or of a `{ }` body.  (Side-effect blocks [ ] and the blank-line separator are
+   outside: the reference parser of C02 is undefined on them; a round group directly around
+   a sequence is not in the grammar.)
 
    The transliterated builder (Model/BuilderWL.v) run on what the transliterated parser
    (Model/Parser.v) makes of the printed tokens produces EXACTLY the program of the AST
@@ -108,16 +109,16 @@ Print Assumptions C01_full_fragment_operators.
 (* non-vacuity: `a = (1 + 2) * -- 3 , x . y < 4 && $ ?> { 5 6 } ~~ |> 7` (25 constructors,
    mixed precedences and associativities, a comma list, a space list, a group, an else-chain,
    a nested expression labelled with the jump-table index of its body) satisfies every
-   hypothesis of C01_full_fragment; side-effect blocks and sequences (also inside { }) are
-   not in the fragment *)
+   hypothesis of C01_full_fragment; side-effect blocks and blank-line sequences are not in the
+   fragment, nor is a round group directly around a sequence *)
 Example C01_ex_e2e_member :
   frag_e2e demo_e2e = true /\ printable demo_e2e = true /\ Nat.leb 12 (Ast.size demo_e2e) = true /\
   known_K1 demo_e2e = false /\ known_K2 demo_e2e = false /\ labels_ok demo_e2e = true.
 Proof. exact demo_e2e_in_fragment. Qed.
 Example C01_ex_e2e_excludes :
-  frag_e2e (ENested 1 (ESeq Semi EValue EValue)) = false /\
+  frag_e2e (ENested 1 (ESeq Blank EValue EValue)) = false /\
   frag_e2e (ESide EValue (ELit (LInt 1))) = false /\
-  frag_e2e (ESeq Semi EValue EValue) = false /\
+  frag_e2e (EGroup (ESeq Semi EValue EValue)) = false /\
   frag_e2e (EReapply (ESide EValue (ELit (LInt 1)))) = false.
 Proof. exact frag_e2e_excludes. Qed.
 
@@ -134,6 +135,12 @@ Example C01_ex_e2e_loop :
   known_K2 demo_loop = false /\ labels_ok demo_loop = true /\
   eval_prog sh unit nohost 40 demo_loop VUnit tt = ODone (VNum (Int 3)) (tt, []).
 Proof. exact demo_loop_ok. Qed.
+(* a function whose body is a sequence of two statements: `{ $ + 1 ; $ * 2 } <~ 3` is 8 *)
+Example C01_ex_e2e_sequence_body :
+  frag_e2e demo_seq = true /\ printable demo_seq = true /\ known_K1 demo_seq = false /\
+  known_K2 demo_seq = false /\ labels_ok demo_seq = true /\
+  eval_prog sh unit nohost 20 demo_seq VUnit tt = ODone (VNum (Int 8)) (tt, []).
+Proof. exact demo_seq_ok. Qed.
 
 (* Stages 1-4, proved for ALL programs of the core grammar: every construct of
    Spec/Ast.v.  What separates it from the full statement: the labels of the
